@@ -9,6 +9,7 @@
     `specTable`, `Py.at`, `Py.len`, `Py.sort`    the specification (hand-written, property shaped)
 -/
 import ALV.Lemmas.C01Py
+import ALV.Lemmas.C01Bcast
 import ALV.Gen.OpTable
 import ALV.Common.Audit
 
@@ -31,8 +32,8 @@ theorem optable_correct : ∀ sp ∈ specTable, genInstalled.lookup sp.dname = s
 theorem optable_complete : ∀ kv ∈ genInstalled, (specLookup kv.1).map DunderSpec.dunder = some kv.2 := by
   decide
 
-/-- the specification table has the 35 operator methods, no name twice;
-    23 plain binary, 9... (counted by kind) -/
+/-- the specification table has the 35 operator methods, no name twice: 3 unary, 13 reflected binary
+    (the comparisons have no reflected form), 19 plain binary -/
 theorem spectable_shape :
     specTable.length = 35 ∧ (specTable.map (·.dname)).Nodup ∧
     (specTable.filter (fun sp => sp.arity == 1)).length = 3 ∧
@@ -197,6 +198,138 @@ example : ∃ it, evalPy genInstalled demo = .ok (.iterable true it) ∧
 example : (Py.bin n!"__lt__" (.stream1 (.scalar (.atom 1))) (.iterable 0 [])).len = .fin 0 := by decide
 /-- a comparison has no reflected form: ill-typed in the specification, AttributeError in the model -/
 example : (Py.bin n!"__rlt__" (.stream1 (.scalar (.atom 1))) (.scalar (.atom 2))).sort = none := by decide
+
+/-! ### C01.4 — broadcast functions (`elementwise`) -/
+
+/-- **C01.4a** container kind: scalar in → scalar out, lazy inputs (generator, range, enumerate, zip,
+map, filter) stay lazy generators, a Stream (or subclass) gives a Stream, list / tuple / set /
+frozenset / deque come back as the same kind. -/
+theorem elementwise_kind (c : ECall) (hf : c.found = true) (hw : c.arg.wf = true) :
+    (elementwise c).kind = bcastKind c.arg.kind := by
+  have hk : (!c.isPositional && !(c.kwargs.any fun kv => kv.1 == c.dname)) = false := by
+    unfold ECall.found at hf
+    rw [← ECall.positional_eq] at hf
+    cases h1 : c.isPositional <;> cases h2 : (c.kwargs.any fun kv => kv.1 == c.dname) <;> simp_all
+  unfold elementwise
+  rw [hk]
+  cases ha : c.arg with
+  | obj k self =>
+    rw [ha] at hw
+    cases k <;> simp_all [BArg.wf, BArg.kind, CKind.isIterable, CKind.isStr, BOut.kind, bcastKind]
+  | sized k t xs =>
+    rw [ha] at hw
+    cases k <;> simp_all [BArg.wf, BArg.kind, CKind.isIterable, CKind.isStr, CKind.isSomeGen, CKind.isStream,
+      BOut.kind, bcastKind]
+  | lazy k src =>
+    rw [ha] at hw
+    cases k <;> simp_all [BArg.wf, BArg.kind, CKind.isIterable, CKind.isStr, CKind.isSomeGen, CKind.isStream,
+      BOut.kind, bcastKind]
+
+/-- a call that does not supply the broadcast argument fails with KeyError (`kwargs[name]`) -/
+theorem elementwise_not_found (c : ECall) (hf : c.found = false) : elementwise c = .keyError := by
+  unfold ECall.found at hf
+  rw [← ECall.positional_eq] at hf
+  unfold elementwise
+  cases h1 : c.isPositional <;> cases h2 : (c.kwargs.any fun kv => kv.1 == c.dname) <;> simp_all
+
+/-- **C01.4b** scalar in, scalar out: the value is the function applied to the argument itself, all
+other arguments unchanged (a `str` counts as a scalar). -/
+theorem elementwise_scalar (c : ECall) (k : CKind) (self : Term) (ha : c.arg = .obj k self)
+    (hk : k = .scalar ∨ k = .str) (hf : c.found = true) :
+    elementwise c = .value (c.callWith self) := by
+  have hk' : (!c.isPositional && !(c.kwargs.any fun kv => kv.1 == c.dname)) = false := by
+    unfold ECall.found at hf
+    rw [← ECall.positional_eq] at hf
+    cases h1 : c.isPositional <;> cases h2 : (c.kwargs.any fun kv => kv.1 == c.dname) <;> simp_all
+  have hp := ECall.plainCall_spec c hf
+  rw [ha] at hp
+  unfold elementwise
+  rw [hk']
+  rcases hk with rfl | rfl <;> simp [ha, BArg.kind, CKind.isIterable, CKind.isStr, hp, BArg.self]
+
+/-- **C01.4c** lazy inputs: the result is a generator (a Stream for Streams) that has read NOTHING
+from the source when the function returns; its first `n` items are the function applied to the first
+`n` items of the source (the i-th to the i-th), and asking for `n` items advances the source exactly
+as `n` calls of `next` on the source itself would (one read per `next`).  Any source: finite, empty,
+endless. -/
+theorem elementwise_lazy (c : ECall) (k : CKind) (src : Iter) (ha : c.arg = .lazy k src)
+    (hk : k.isSomeGen = true ∨ k.isStream = true) (hf : c.found = true) :
+    ∃ it, (elementwise c = if k.isSomeGen then .gen it else .stream it) ∧
+      it.unread = src.unread ∧
+      (∀ n, it.run n = (src.run n).map c.callWith) ∧
+      (∀ n, (it.runS n).2.unread = (src.runS n).2.unread) ∧
+      (∀ n i, (it.run n)[i]? = if i < n then (src.get i).map c.callWith else none) := by
+  have hk' : (!c.isPositional && !(c.kwargs.any fun kv => kv.1 == c.dname)) = false := by
+    unfold ECall.found at hf
+    rw [← ECall.positional_eq] at hf
+    cases h1 : c.isPositional <;> cases h2 : (c.kwargs.any fun kv => kv.1 == c.dname) <;> simp_all
+  obtain ⟨pre, post, hd, hx⟩ := ECall.data_spec c hf
+  have hiter : c.arg.iter = src := by rw [ha]; rfl
+  rw [hiter] at hd
+  have hfun : (fun x => Term.app c.f (pre ++ x :: post)) = c.callWith := funext hx
+  refine ⟨c.data, ?_, ?_, ?_, ?_, ?_⟩
+  · unfold elementwise
+    rw [hk']
+    have hit : k.isIterable = true := by cases k <;> simp_all [CKind.isIterable, CKind.isSomeGen, CKind.isStream]
+    have hns : k.isStr = false := by cases k <;> simp_all [CKind.isStr, CKind.isSomeGen, CKind.isStream]
+    simp only [ha, BArg.kind, hit, hns]
+    cases hg : k.isSomeGen with
+    | true => simp
+    | false =>
+      have : k.isStream = true := by rcases hk with h | h <;> simp_all
+      simp [this]
+  · rw [hd]; rfl
+  · intro n
+    rw [hd]
+    show ((Iter.mapc c.f pre post src).runS n).1 = _
+    rw [Iter.runS_mapc, hfun]; rfl
+  · intro n
+    rw [hd, Iter.runS_mapc]; rfl
+  · intro n i
+    rw [hd, Iter.run_getElem?]
+    simp only [Iter.get, hfun]
+
+/-- **C01.4d** sized containers: the result is the same kind of container, holding the function
+applied to every item in order; the argument has been read to its end. -/
+theorem elementwise_cast (c : ECall) (k : CKind) (t : Nat) (xs : List Term) (ha : c.arg = .sized k t xs)
+    (hw : c.arg.wf = true) (hf : c.found = true) :
+    ∃ left, elementwise c = .cast k (xs.map c.callWith) left ∧ left.unread = [(t, 0)] := by
+  have hk' : (!c.isPositional && !(c.kwargs.any fun kv => kv.1 == c.dname)) = false := by
+    unfold ECall.found at hf
+    rw [← ECall.positional_eq] at hf
+    cases h1 : c.isPositional <;> cases h2 : (c.kwargs.any fun kv => kv.1 == c.dname) <;> simp_all
+  obtain ⟨pre, post, hd, hx⟩ := ECall.data_spec c hf
+  have hiter : c.arg.iter = .list t xs := by rw [ha]; rfl
+  rw [hiter] at hd
+  have hfun : (fun x => Term.app c.f (pre ++ x :: post)) = c.callWith := funext hx
+  rw [ha] at hw
+  simp only [BArg.wf, Bool.and_eq_true, Bool.not_eq_true'] at hw
+  obtain ⟨⟨⟨h1, h2⟩, h3⟩, h4⟩ := hw
+  refine ⟨.mapc c.f pre post (.list t []), ?_, rfl⟩
+  unfold elementwise
+  rw [hk']
+  simp only [ha, BArg.kind, h1, h2, h3, h4, BArg.drainFuel, hd, Iter.runS_mapc, Iter.runS_list_drain, hfun]
+  simp
+
+/-! non-vacuity of C01.4 -/
+
+/-- `log(xs, 10)` style call: broadcast argument first, one more positional, one keyword -/
+def demoCall (arg : BArg) : ECall :=
+  { f := n!"f", dname := n!"x", dpos := some 0, args := [.atom 0, .atom 10], kwargs := [(n!"base", .atom 11)], arg := arg }
+
+example : (demoCall (.sized .tuple 3 [.atom 1, .atom 2])).found = true := by decide
+example : elementwise (demoCall (.sized .tuple 3 [.atom 1, .atom 2])) =
+    .cast .tuple [.app n!"f" [.atom 1, .atom 10, kwMarker n!"base", .atom 11],
+                  .app n!"f" [.atom 2, .atom 10, kwMarker n!"base", .atom 11]]
+      (.mapc n!"f" [] [.atom 10, kwMarker n!"base", .atom 11] (.list 3 [])) := by rfl
+example : (elementwise (demoCall (.lazy .filter (.list 3 [.atom 1, .atom 2])))).kind = .generator := by rfl
+example : (elementwise (demoCall (.obj .str (.atom 5)))) =
+    .value (.app n!"f" [.atom 5, .atom 10, kwMarker n!"base", .atom 11]) := by rfl
+/-- keyword route: `f(7, x=<container>, base=11)` with `elementwise("x", 1)` -/
+example : elementwise { f := n!"f", dname := n!"x", dpos := some 1, args := [.atom 7],
+                        kwargs := [(n!"x", .atom 0), (n!"base", .atom 11)], arg := .sized .list 0 [.atom 1] } =
+    .cast .list [.app n!"f" [.atom 7, kwMarker n!"x", .atom 1, kwMarker n!"base", .atom 11]]
+      (.mapc n!"f" [.atom 7, kwMarker n!"x"] [kwMarker n!"base", .atom 11] (.list 0 [])) := by rfl
 
 end ALV.Props.C01
 
